@@ -142,6 +142,21 @@ def closeRing (i : DiscIn) (r : Ring) : List (RingFile × FileFate) :=
 def shmDisconnectFiles (i : DiscIn) : List (RingFile × FileFate) :=
   closeRing i .req ++ closeRing i .resp ++ closeRing i .evt
 
+/-! ### `qb_ipcc_disconnect` (lib/ipcc.c): the connection-state probe comes first -/
+
+/-- the first thing `qb_ipcc_disconnect` does:
+    `(void)_check_connection_state_with(c, -EAGAIN, _event_sock_one_way_get(c), 0, POLLIN)`, i.e.
+    `qb_ipc_us_ready(ow, &c->setup, 0, POLLIN)` = `poll(setup [+ event socket], 0)`; POLLHUP on the setup
+    socket (-ENOTCONN) clears `c->is_connected`; the result is thrown away -/
+def disconnectProbe (c : Cl) : Cl := if c.hup then { c with conn := false } else c
+
+/-- `qb_ipcc_disconnect` on the shm transport, what happens to the ring files: the probe, then
+    `c->funcs.disconnect(c)` = `qb_ipcc_shm_disconnect`, which looks at `c->is_connected` only
+    (`env.conn` is ignored: the flag is the connection's).  `probe = false` is a `qb_ipcc_disconnect`
+    that goes to `c->funcs.disconnect` at once (for the refutation witness). -/
+def ipccDisconnectFiles (probe : Bool) (c : Cl) (env : DiscIn) : List (RingFile × FileFate) :=
+  shmDisconnectFiles { env with conn := (if probe then disconnectProbe c else c).conn }
+
 /-- not used by the differential run: the server-death direction is judged by the property oracle -/
 def caseServerDeath (_t : Transport) (_pre : List Char) (_api : String) (_tmo : Int) (_s : Nat) (_dry : Bool) : List String := ["todo"]
 end QbVerif.IpcLife.Client
